@@ -18,9 +18,12 @@ QR = Q + "Request."
 TECHNIQUE = "CFG must-precede/must-pass, who-may-write, take-then-fire on HTTPChannel/Request"
 EXPLANATION = (
     "Decides (a) one request at a time: in allContentReceived the busy flag and raw mode are established before the application call-out; "
-    "rawDataReceived only buffers while busy and only decodes while not; requestDone accepts only the head request, removes it from the front, "
+    "rawDataReceived only buffers while busy (and writes nothing of its own to the transport then) and only decodes while not; requestDone accepts only the head request, removes it from the front, "
     "and - only when persistent - clears the flag, detaches the buffered bytes and then replays them (in that order), else closes; it wakes the "
     "paused network producer; no new request is started on a non-persistent connection; _handlingRequest has exactly three writers; "
+    "no HTTPChannel method that reaches transport.write/writeSequence/loseConnection/abortConnection (intra-class call graph) can do so while a request is "
+    "being handled, except the write API used by the head-of-line Request: each such method is either confined to line mode / requestDone / the (disabled) idle "
+    "timeout, or every effect site is dominated by 'not _handlingRequest'; "
     "(b) notifyFinish: the list is appended only by notifyFinish (which returns the Deferred it appended), fired with None only in _cleanup and "
     "with the reason only in connectionLost, each resetting the list on every path; _cleanup is reached only from finish under 'not finished and "
     "not disconnected' after finished was set; the channel's connectionLost drains every queued request. Not decided: byte order of responses "
@@ -29,6 +32,8 @@ EXPLANATION = (
 ASSUMPTIONS = [
     "Deferred.callback/errback do not raise for a Deferred fired once (C03)",
     "application code re-enters only through requestReceived / notifyFinish callbacks",
+    "lineReceived/rawDataReceived are driven only by LineReceiver.dataReceived according to line_mode; TimeoutMixin.resetTimeout is a no-op while timeOut is None",
+    "Request.requestReceived's own 400 (multipart parse failure) is the head-of-line request's response",
 ]
 
 
@@ -175,6 +180,86 @@ def _channel(ctx, I):
               "connectionLost does not pass the reason to every queued request: their notifyFinish Deferreds never fire", witness=g.describe(wit))
 
 
+EFFECTS = ("self.transport.write", "self.transport.writeSequence", "self.transport.loseConnection", "self.transport.abortConnection")
+REQUEST_API = {"writeHeaders": "Request.write emits its own header block through it", "write": "Request.write / finish emit the body through it",
+               "writeSequence": "Request.write emits chunks through it", "loseConnection": "Request.loseConnection passes through"}
+SAFE_ROOTS = {"lineReceived": "line mode is left before the hand-over (raw-mode-before-hand-over) and re-entered only after the busy flag is cleared (flag-cleared-before-replay)",
+              "requestDone": "invoked by the head-of-line request when its response is complete",
+              "timeoutConnection": "the idle timeout is disabled while a request is handled (idle-timeout-disabled-while-handling)",
+              "forceAbortClient": "scheduled only by timeoutConnection"}
+
+
+def _transport_effects(ctx, I):
+    """Responses are not interleaved: while a request is being handled the channel itself neither writes to the
+    transport nor closes it.  Every HTTPChannel method that can reach transport.write/writeSequence/loseConnection/
+    abortConnection through the intra-class call graph is classified: the write API used by the head-of-line Request;
+    methods that run only in a context where no request is in progress (derived: all their call sites lie in such a
+    method or are dominated by 'not self._handlingRequest'); everything else (externally driven entry points such as
+    rawDataReceived) must have each effect site dominated by 'not self._handlingRequest'."""
+    from sa.source import methods
+    cls = ctx.cls(HTTP, "HTTPChannel")
+    ms = methods(cls)
+    cfgs = {n: ctx.cfg(m) for n, m in ms.items()}
+    direct, calls = {}, {}
+    for n, g in cfgs.items():
+        direct[n] = calls_named(g, *EFFECTS)
+        calls[n] = []
+        for node in g.ids(lambda x: x.kind in ("stmt", "test", "for", "with")):
+            for c in walk_local(g.node(node).ast):
+                if isinstance(c, ast.Call) and isinstance(c.func, ast.Attribute) and self_attr(c.func) and c.func.attr in ms:
+                    calls[n].append((c.func.attr, node))
+    W = {n for n in ms if direct[n]}
+    changed = True
+    while changed:
+        changed = False
+        for n in ms:
+            if n not in W and any(c in W for c, _ in calls[n]):
+                W.add(n)
+                changed = True
+    ctx.check(all(a in W for a in REQUEST_API), "pipeline/write-api", QC + "writeHeaders/write/writeSequence/loseConnection",
+              "the write API used by Request no longer reaches the transport")
+    busy_vis = {n: walk(cfgs[n], I, make_env({"self._handlingRequest": True})) for n in W}
+
+    def site_guarded(m, node):
+        return node not in busy_vis[m]
+    callers = {n: [(m, node) for m in ms for c, node in calls[m] if c == n] for n in ms}
+    safe = {n for n in SAFE_ROOTS if n in ms}
+    changed = True
+    while changed:
+        changed = False
+        for n in W - safe - set(REQUEST_API):
+            cs = callers[n]
+            if cs and all(m in safe or (m in W and site_guarded(m, node)) for m, node in cs):
+                safe.add(n)
+                changed = True
+    for n in sorted(W - set(REQUEST_API)):
+        q = QC + n
+        if n in safe:
+            ctx.ok("pipeline/no-channel-bytes-during-response", q,
+                   SAFE_ROOTS.get(n) or ("reached only from " + ", ".join(sorted({m for m, _ in callers[n]})) + " in a context where no request is being handled"))
+            continue
+        if callers[n]:
+            continue  # not an entry point: the unjustified call site is reported in its (entry-point) caller
+        g = cfgs[n]
+        sites = list(direct[n]) + [node for c, node in calls[n] if c in W]
+        for node in sorted(set(sites)):
+            ctx.check(site_guarded(n, node), "pipeline/no-channel-bytes-during-response", ctx.construct(q, g.node(node).ast),
+                      f"{n} can run while a request is being handled and reaches the transport (write / close) without being dominated by 'not self._handlingRequest': "
+                      "bytes that do not belong to the head-of-line response (e.g. a 400 for pipelined input not parsed yet) appear in the middle of it, or the "
+                      "connection is closed under the response", witness=g.describe(g.path([g.entry], [node], edge_ok=no_exc)))
+    ctx.floor("pipeline/no-channel-bytes-during-response", len(W - set(REQUEST_API)), 6)
+    # the idle timeout cannot fire while a request is being handled
+    f = ctx.func(HTTP, "HTTPChannel.allContentReceived")
+    g = ctx.cfg(f)
+    out = calls_named(g, ".requestReceived")
+    off = [n for n in calls_named(g, "self.setTimeout") if (lambda c: len(c.args) == 1 and isinstance(c.args[0], ast.Constant) and c.args[0].value is None)(call_in(g.node(n).ast, "self.setTimeout"))]
+    vis = walk(g, I, make_env({"self.timeOut": 60}))
+    late = g.path(out, off, edge_ok=no_exc, strict=True) if off else None
+    ctx.check(bool(off) and _hit(vis, off) and late is None and all(g.path([o], out, edge_ok=no_exc) for o in off), "pipeline/idle-timeout-disabled-while-handling",
+              QC + "allContentReceived | self.setTimeout(None)",
+              "the idle timeout stays armed while the application produces the response: timeoutConnection closes the transport in the middle of it")
+
+
 def _request(ctx, I):
     mod = ctx.mod(HTTP)
     cls = ctx.cls(HTTP, "Request")
@@ -279,8 +364,12 @@ def _request(ctx, I):
 
 def check(ctx):
     I = http_interp(ctx)
-    _channel(ctx, I)
-    _request(ctx, I)
+    with ctx.section("HTTPChannel pipelining"):
+        _channel(ctx, I)
+    with ctx.section("transport effects while busy"):
+        _transport_effects(ctx, I)
+    with ctx.section("Request notifyFinish"):
+        _request(ctx, I)
 
 
 MUTANTS = [
@@ -316,6 +405,16 @@ MUTANTS = [
     Mutant("notifyFinish-returns-first", HTTP, "        return self.notifications[-1]", "        return self.notifications[0]", expect_rule="notify/returns-registered"),
     Mutant("drain-skips-head", HTTP, "        for request in self.requests:\n            request.connectionLost(reason)", "        for request in self.requests[1:]:\n            request.connectionLost(reason)",
            expect_rule="notify/drain-on-connection-lost"),
+    Mutant("hard-cap-answers-400-mid-response", HTTP, "            self._dataBuffer.append(data)\n            if (\n",
+           "            self._dataBuffer.append(data)\n            if len(self._dataBuffer) > 4096:\n                self._respondToBadRequestAndDisconnect()\n            if (\n",
+           expect_rule="pipeline/no-channel-bytes-during-response"),
+    Mutant("hard-cap-closes-mid-response", HTTP, "            self._dataBuffer.append(data)\n            if (\n",
+           "            self._dataBuffer.append(data)\n            if len(self._dataBuffer) > 4096:\n                self.loseConnection()\n            if (\n",
+           expect_rule="pipeline/no-channel-bytes-during-response"),
+    Mutant("backpressure-notice-written-by-channel", HTTP, "        self._waitingForTransport = True\n\n        # The first step", "        self._waitingForTransport = True\n        self._send100Continue()\n\n        # The first step",
+           expect_rule="pipeline/no-channel-bytes-during-response"),
+    Mutant("idle-timeout-armed-while-handling", HTTP, "        if self.timeOut:\n            self._savedTimeOut = self.setTimeout(None)\n\n        self._handlingRequest = True", "        self._handlingRequest = True",
+           expect_rule="pipeline/idle-timeout-disabled-while-handling"),
     Mutant("replay-only-first-buffered-piece", HTTP, "            data = b\"\".join(self._dataBuffer)\n", "            data = b\"\".join(self._dataBuffer[:1])\n", expect_rule="pipeline/replay-buffered-bytes"),
     Mutant("cleanup-does-not-report-done", HTTP, "        self.channel.requestDone(self)\n        del self.channel", "        del self.channel", expect_rule="pipeline/request-done-reported"),
     Mutant("busy-while-idle", HTTP, "        self.requests = []\n        self._handlingRequest = False", "        self.requests = []\n        self._handlingRequest = True", expect_rule="pipeline/who-may-write-busy-flag"),
@@ -330,6 +429,13 @@ SILENT = [
     Silent("notifyFinish-local", HTTP, "        self.notifications.append(Deferred())\n        return self.notifications[-1]", "        d: Deferred[None] = Deferred()\n        self.notifications.append(d)\n        return d"),
     Silent("busy-and-raw-swapped", HTTP, "        self._handlingRequest = True\n\n        # We go into raw mode here even though we will be receiving lines next\n        # in the protocol; however, this data will be buffered and then passed\n        # back to line mode in the setLineMode call in requestDone.\n        self.setRawMode()\n",
            "        self.setRawMode()\n        self._handlingRequest = True\n"),
+    Silent("pause-condition-with-local", HTTP, "            if (\n                sum(map(len, self._dataBuffer)) > self._optimisticEagerReadSize\n            ) and not self._waitingForTransport:",
+           "            buffered = sum(map(len, self._dataBuffer))\n            if buffered > self._optimisticEagerReadSize and not self._waitingForTransport:"),
+    Silent("reject-helper-extracted", HTTP, "        self._receivedHeaderSize += len(line)\n        if self._receivedHeaderSize > self.totalHeadersSize:\n            self._respondToBadRequestAndDisconnect()\n            return\n",
+           "        self._receivedHeaderSize += len(line)\n        if self._receivedHeaderSize > self.totalHeadersSize:\n            self._rejectOversized()\n            return\n",
+           more=[(HTTP, "    def _finishRequestBody(self, data):\n", "    def _rejectOversized(self):\n        self._respondToBadRequestAndDisconnect()\n\n    def _finishRequestBody(self, data):\n")]),
+    Silent("hard-cap-only-when-idle", HTTP, "        try:\n            self._transferDecoder.dataReceived(data)\n        except _MalformedChunkedDataError:\n            self._respondToBadRequestAndDisconnect()",
+           "        if len(data) > 0x4000000:\n            self._respondToBadRequestAndDisconnect()\n            return\n        try:\n            self._transferDecoder.dataReceived(data)\n        except _MalformedChunkedDataError:\n            self._respondToBadRequestAndDisconnect()"),
     Silent("drain-over-copy", HTTP, "        for request in self.requests:\n            request.connectionLost(reason)", "        for req in list(self.requests):\n            req.connectionLost(reason)"),
     Silent("persistent-branches-swapped", HTTP, "            self.setLineMode(data)\n        else:\n            self.loseConnection()", "            self.setLineMode(data)\n            return\n        self.loseConnection()"),
 ]
